@@ -1416,38 +1416,30 @@ func (rl *Shell) viEditCommandLine() {
 
 // Read a character from the keyboard, and move to the next occurrence of it in the line.
 func (rl *Shell) viFindNextChar() {
-	vii := rl.Iterations.Get()
-
-	for i := 1; i <= vii; i++ {
-		rl.viFindChar(true, false)
-	}
+	// The count is applied by viFindChar itself, once the character
+	// has been read: it must be read once, not once per iteration.
+	rl.viFindChar(true, false)
 }
 
 // Read a character from the keyboard, and move to the position just before the next occurrence of it in the line.
 func (rl *Shell) viFindNextCharSkip() {
-	vii := rl.Iterations.Get()
-
-	for i := 1; i <= vii; i++ {
-		rl.viFindChar(true, true)
-	}
+	// The count is applied by viFindChar itself, once the character
+	// has been read: it must be read once, not once per iteration.
+	rl.viFindChar(true, true)
 }
 
 // Read a character from the keyboard, and move to the previous occurrence of it in the line.
 func (rl *Shell) viFindPrevChar() {
-	vii := rl.Iterations.Get()
-
-	for i := 1; i <= vii; i++ {
-		rl.viFindChar(false, false)
-	}
+	// The count is applied by viFindChar itself, once the character
+	// has been read: it must be read once, not once per iteration.
+	rl.viFindChar(false, false)
 }
 
 // Read a character from the keyboard, and move to the position just after the previous occurrence of it in the line.
 func (rl *Shell) viFindPrevCharSkip() {
-	vii := rl.Iterations.Get()
-
-	for i := 1; i <= vii; i++ {
-		rl.viFindChar(false, true)
-	}
+	// The count is applied by viFindChar itself, once the character
+	// has been read: it must be read once, not once per iteration.
+	rl.viFindChar(false, true)
 }
 
 func (rl *Shell) viFindChar(forward, skip bool) {
